@@ -128,7 +128,13 @@ func verifyUnit(env *Env, key string, fn *ssa.Function, opts UnitOpts) (u *Unit)
 		}
 		if con.HasModifies {
 			// copy-in cells not listed in modifies must be unchanged
-			for i, c := range fr.pcells {
+			var pidx []int
+			for i := range fr.pcells {
+				pidx = append(pidx, i)
+			}
+			sort.Ints(pidx)
+			for _, i := range pidx {
+				c := fr.pcells[i]
 				listed := false
 				for _, m := range x.modAllowed {
 					if m.ptr != nil && m.ptr.Base == PLocal && m.ptr.Cell == c {
